@@ -2,7 +2,11 @@
 
 package evaluator
 
-import "errors"
+import (
+	"errors"
+	"strconv"
+	"strings"
+)
 
 // C11 — index and slice laws for arrays and strings.
 //
@@ -197,5 +201,66 @@ func ZZC11StringSlice() {
 			zzAssert(errors.Is(err, ErrSlice), "C11 string slice: a>b is ErrSlice")
 		}
 	}
+	zzWitness("end")
+}
+
+// ZZC11Errmsg: errmsg is the one string that is updated in place (by the
+// conversion built-ins). After any history of conversions and reads, its
+// index / slice / len / range behave like those of a fresh string with the
+// same text (in code points).
+func ZZC11Errmsg() {
+	H := zzParam("HE", 2)
+	inputs := []string{"zz", "1", "ñ☺", ""}
+	src := "n := 0\n"
+	want := ""
+	cur := ""
+	for k := 0; k < H; k++ {
+		in := inputs[zzChoice("input", len(inputs))]
+		src += "n = str2num " + strconv.Quote(in) + "\n"
+		if _, err := strconv.ParseFloat(in, 64); err != nil {
+			cur = "str2num: cannot parse " + strconv.Quote(in)
+		} else {
+			cur = ""
+		}
+		rs := []rune(cur)
+		switch zzChoice("read", 5) {
+		case 0: // no read between the conversions
+		case 1:
+			src += "print \"len\" (len errmsg)\n"
+			want += "print:len " + strconv.Itoa(len(rs)) + "\n|"
+		case 2:
+			src += "print \"all\" errmsg[:]\n"
+			want += "print:all " + cur + "\n|"
+		case 3:
+			src += "c := 0\nfor ch := range errmsg\n    if ch != \"\"\n        c = c + 1\n    end\nend\nprint \"count\" c\n"
+			want += "print:count " + strconv.Itoa(len(rs)) + "\n|"
+			src = strings.Replace(src, "c := 0", "c"+strconv.Itoa(k)+" := 0", 1)
+			src = strings.ReplaceAll(src, " c = c + 1", " c"+strconv.Itoa(k)+" = c"+strconv.Itoa(k)+" + 1")
+			src = strings.ReplaceAll(src, "\"count\" c\n", "\"count\" c"+strconv.Itoa(k)+"\n")
+		case 4:
+			if len(rs) > 0 {
+				src += "print \"last\" errmsg[-1] errmsg[1:3]\n"
+				want += "print:last " + string(rs[len(rs)-1]) + " " + string(rs[1:3]) + "\n|"
+			} else {
+				src += "print \"empty\" (errmsg == \"\")\n"
+				want += "print:empty true\n|"
+			}
+		}
+	}
+	src += "print \"end\" (len errmsg) errmsg[:] n\n"
+	want += "print:end " + strconv.Itoa(len([]rune(cur))) + " " + cur + " "
+	p := &zzPlat{}
+	ev := NewEvaluator(p)
+	err := ev.Run(src)
+	if err != nil {
+		zzLog(src + err.Error())
+	}
+	zzAssert(err == nil, "C11 errmsg: history runs")
+	got := p.out()
+	if !strings.HasPrefix(got, want) {
+		zzLog("C11 errmsg mismatch:\n" + src + "got:  " + got + "\nwant: " + want)
+	}
+	zzAssert(strings.HasPrefix(got, want), "C11 errmsg: index, slice, len and range of the in-place updated errmsg follow its current text")
+	zzReach("errmsg-ok")
 	zzWitness("end")
 }
